@@ -191,7 +191,7 @@ public:
 // model
 // ------------------------------------------------------------------------------------------------------
 enum class OpKind { None, Log, Flush, InitBt, FlushBt, RemoveBlocking, Other };
-enum class SKind { Normal, Backtrace, BadTemplate, BadSpec, Bomb, BtNoInit, MacroStatic, MacroDynamic, Named, NamedBtNoInit, Dynamic, NamedBacktrace };
+enum class SKind { Normal, Backtrace, BadTemplate, BadSpec, Bomb, BtNoInit, MacroStatic, MacroDynamic, Named, NamedBtNoInit, Dynamic, NamedBacktrace, RuntimeMeta };
 
 inline bool is_bt_kind(SKind k) { return k == SKind::Backtrace || k == SKind::NamedBacktrace; }
 
@@ -377,6 +377,10 @@ constexpr quill::MacroMetadata kMdNamed{"sim.cpp:30", "f", "{a}:{b}:{c}", nullpt
 constexpr quill::MacroMetadata kMdNamedBt{"sim.cpp:31", "f", "{a}:{b}:{c}", nullptr, quill::LogLevel::Backtrace, quill::MacroMetadata::Event::Log};
 // level supplied at run time
 constexpr quill::MacroMetadata kMdDyn{"sim.cpp:32", "f", "{}:{}:{}", nullptr, quill::LogLevel::Dynamic, quill::MacroMetadata::Event::Log};
+// what LOG_RUNTIME_METADATA expands to: file, line and function travel as three more arguments behind separators
+constexpr quill::MacroMetadata kMdRuntime{"[placeholder]", "[placeholder]",
+                                          "{}:{}:{}" QUILL_MAGIC_SEPARATOR "{}" QUILL_MAGIC_SEPARATOR "{}" QUILL_MAGIC_SEPARATOR "{}", nullptr,
+                                          quill::LogLevel::Dynamic, quill::MacroMetadata::Event::LogWithRuntimeMetadata};
 constexpr quill::MacroMetadata kMdBomb{"sim.cpp:22", "f", "{}{}", nullptr, quill::LogLevel::Info, quill::MacroMetadata::Event::Log};
 
 std::string make_pad(int w, uint32_t seq, uint32_t len)
